@@ -31,6 +31,8 @@ Proof.
     rewrite (IHe1 _ _ R1), (IHe2 _ _ R2). reflexivity.
   - destruct t; try contradiction. destruct R as (_ & _ & R1 & R2). cbn [img Compile.size Ast.size].
     rewrite (IHe1 _ _ R1), (IHe2 _ _ R2). reflexivity.
+  - destruct s; destruct t; try contradiction; destruct R as (_ & _ & R1 & R2); cbn [img Compile.size Ast.size];
+      rewrite (IHe1 _ _ R1), (IHe2 _ _ R2); reflexivity.
   - destruct t as [| | | |b ? ? t]; try contradiction. destruct b; try contradiction.
     destruct R as (_ & R). cbn [img Compile.size Ast.size]. rewrite (IHe _ _ R). lia.
   - destruct t; try contradiction. destruct R as (_ & _ & R). cbn [img Compile.size Ast.size]. rewrite (IHe _ _ R). lia.
